@@ -27,8 +27,8 @@ import (
 // PerformHandshake performs a handshake between the given client and server connections, using the provided protocol
 // version. The handshake will use stream id 1, unless the client connection is in managed mode.
 func PerformHandshake(clientConn *CqlClientConnection, serverConn *CqlServerConnection, version primitive.ProtocolVersion, streamId int16) error {
-	clientChan := make(chan error)
-	serverChan := make(chan error)
+	clientChan := make(chan error, 1)
+	serverChan := make(chan error, 1)
 	go func() {
 		clientChan <- clientConn.InitiateHandshake(version, streamId)
 	}()
